@@ -375,7 +375,8 @@ pub fn stdin_variants(rng: &mut Rng) -> Vec<Vec<u8>> {
 }
 
 pub fn token_soup(rng: &mut Rng, n: usize) -> Vec<u8> {
-    let toks: [&[u8]; 21] = [
+    let toks: [&[u8]; 25] = [
+        b"\"", b"\"\"", b"\"a,b\"", b"\"x",
         b"1", b"23", b"-7", b"99999", b"1.5", b"abc", b"\"q\"", b",", b",", b" ", b"\r\n",
         b"\n", b"\r", b"\xff", b"\0", b"1e40", b"nan", b"inf", b"-inf", b"1e999", b"NaN",
     ];
@@ -537,7 +538,7 @@ pub fn gen_wio(rng: &mut Rng) -> RawCase {
                 "OPEN \"{}\" FOR {} AS #{}",
                 name,
                 rng.pick(&["INPUT", "OUTPUT", "APPEND", "RANDOM"]),
-                rng.pick(&["1", "2", "3"])
+                rng.pick(&["1", "2", "3", "1", "2", "3", "255", "254"])
             ),
             13 => format!("OPEN \"{}\" FOR RANDOM AS #{} LEN = {}", name, rng.pick(&["1", "2", "3"]), i1),
             14 => format!("CLOSE #{}", rng.pick(&["1", "2", "3"])),
@@ -663,7 +664,7 @@ pub fn gen_wrep(rng: &mut Rng) -> RawCase {
     }
     l.push("DIM SHARED GS%".into());
     l.push("DIM SHARED GA$(1 TO 2)".into());
-    l.push("CONST C1 = 5\nCONST CS$ = \"k\"\nCONST CF = 2.5".into());
+    l.push("CONST C1 = 5\nCONST CS$ = \"k\"\nCONST CF = 2.5\nCONST DBG = 0".into());
     l.push("DIM A1%(1 TO 3), A2$(2, 2), P AS Pt, PA(1 TO 2) AS Pt, FS AS STRING * 4, D1#(-1 TO 1)".into());
     if has_ln {
         l.push("DIM L1 AS Ln\nL1.A.X = 3\nL1.B = P".into());
@@ -714,7 +715,7 @@ pub fn gen_wrep(rng: &mut Rng) -> RawCase {
             17 => format!("SELECT CASE {}\nCASE 1 TO 3\nPRINT \"a\"\nCASE IS > {}\nPRINT \"b\"\nCASE ELSE\nEND SELECT", i1, i2),
             18 => format!("SELECT CASE {}\nCASE \"a\", \"b\"\nPRINT 1\nCASE ELSE\nPRINT 2\nEND SELECT", s1),
             19 => format!("WHILE I% < 3\nI% = I% + 1\n{} = {}\nWEND", v, i1),
-            20 => format!("Sb1 {}, {}, ({})", rng.pick(&["I%", "A1%(1)", "P.X", "GS%", "A1%(I%)", "PA(1).X", "A1%(Fn1%(I%))", "A1%(Fn4%(I%, GS%))", "PA(Fn1%(I%)).X"]), rng.pick(&["T$", "A2$(1, 2)", "GA$(1)", "A2$(I%, 0)"]), i1),
+            20 => format!("Sb1 {}, {}, ({})", rng.pick(&["I%", "A1%(1)", "P.X", "GS%", "A1%(I%)", "PA(1).X", "A1%(Fn1%(I%))", "A1%(Fn4%(I%, GS%))", "PA(Fn1%(I%)).X", "A1%(Fn5%(1))", "A1%(Fn5%(Fn1%(1)))"]), rng.pick(&["T$", "A2$(1, 2)", "GA$(1)", "A2$(I%, 0)", "A2$(Fn5%(1), 1)"]), i1),
             21 => {
                 // a record by reference, or by value (in parentheses: a record of another
                 // type is then for the checker to refuse)
@@ -748,10 +749,10 @@ pub fn gen_wrep(rng: &mut Rng) -> RawCase {
                     format!("PRINT {}; {}", i1, s1)
                 }
             }
-            37 => format!("{} = Fn4%({}, {})", v, rng.pick(&["A1%(Fn1%(1))", "I%", "PA(Fn1%(1)).X", "A1%(I%)"]), rng.pick(&["I%", "GS%", "A1%(Fn1%(0) + 1)"])),
-            38 => format!("GOTO {}", rng.pick(&["InFor", "InSel", "InWhile", "InIf"])),
-            39 => format!("IF {} > {} THEN GOTO {}", i1, i2, rng.pick(&["InFor", "InSel", "InWhile", "InIf"])),
-            40 => format!("GOSUB {}", rng.pick(&["InFor", "InSel"])),
+            37 => format!("{} = Fn4%({}, {})", v, rng.pick(&["A1%(Fn1%(1))", "I%", "PA(Fn1%(1)).X", "A1%(I%)", "A1%(Fn5%(1))", "PA(Fn5%(2)).X"]), rng.pick(&["I%", "GS%", "A1%(Fn1%(0) + 1)", "A1%(Fn5%(1))"])),
+            38 => format!("GOTO {}", rng.pick(&["InFor", "InSel", "InWhile", "InIf", "InIf0", "InIf1", "InWhile0"])),
+            39 => format!("IF {} > {} THEN GOTO {}", i1, i2, rng.pick(&["InFor", "InSel", "InWhile", "InIf", "InIf0", "InIf1", "InWhile0"])),
+            40 => format!("GOSUB {}", rng.pick(&["InFor", "InSel", "InIf0"])),
             // assignment to something that is not a variable: for the checker to refuse
             41 => format!("{} = {}", rng.pick(&["MID$(T$, 2, 1)", "LEFT$(T$, 1)", "UBOUND(A1%)", "LEN(T$)"]), s1),
             // the store-back of the second argument fails after the SUB changed the index
@@ -778,6 +779,13 @@ pub fn gen_wrep(rng: &mut Rng) -> RawCase {
         l.push("SELECT CASE I%\nCASE 0\nInSel:\nPRINT \"s\";\nCASE ELSE\nEND SELECT".into());
         l.push("WHILE K2% < 2\nInWhile:\nK2% = K2% + 1\nWEND".into());
         l.push("IF I% = 12345 THEN\nInIf:\nPRINT \"i\";\nEND IF".into());
+        // a block whose condition is a constant: its labels are still branch targets
+        l.push(format!(
+            "IF {} THEN\nInIf0:\nPRINT \"c\";\nELSEIF {} THEN\nInIf1:\nPRINT \"d\";\nEND IF",
+            rng.pick(&["0", "DBG", "(0)", "C1 - 5", "DBG * 1"]),
+            rng.pick(&["0", "DBG", "1", "I%"])
+        ));
+        l.push(format!("WHILE {}\nInWhile0:\nPRINT \"w\";\nK4% = K4% + 1\nIF K4% > 3 THEN END\nWEND", rng.pick(&["0", "DBG"])));
     }
     l.push("END".into());
     l.push("Gs1:\nI% = I% + 1\nRETURN".into());
@@ -800,6 +808,13 @@ pub fn gen_wrep(rng: &mut Rng) -> RawCase {
     l.push("FUNCTION Fn3$ (B$)\nFn3$ = B$ + B$\nEND FUNCTION".into());
     l.push("FUNCTION Fn4% (A%, B%)\nA% = A% + 1\nFn4% = A% + B%\nEND FUNCTION".into());
     l.push("SUB Sb4 (P%, Q%)\nP% = 10\nEND SUB".into());
+    // a function with a statement that fails every time it is called (a handler goes on
+    // behind it): as the index of an element passed by reference it is evaluated again
+    // when the element is stored back, i.e. it fails while its caller's result waits
+    l.push(format!(
+        "FUNCTION Fn5% (X%)\n{}\nFn5% = X%\nEND FUNCTION",
+        rng.pick(&["OPEN \"NOSUCH.DAT\" FOR INPUT AS #9", "Y9% = 1 / Z9%", "KILL \"NOSUCH.DAT\"", "Y9% = A9%(77)"])
+    ));
     let text = l.join("\n") + "\n";
     RawCase {
         text,
